@@ -487,6 +487,9 @@ def check(prop: str, tier: str, replay_path: Optional[str]) -> int:
     from .common import Verdicts, import_repo, seed
     import_repo()
     v = Verdicts(prop, tier)
+    if replay_path and json.loads(open(replay_path).read()).get("entry") == "system parameters":
+        _system_parameters(v, prop)
+        return v.finish({"states": 1, "transitions": 1, "traces_validated_against_impl": 1, "samples": []}, ["replay of the system parameters"])
     if replay_path and json.loads(open(replay_path).read()).get("machine") == "Compu":
         _c03_compu(v, tier, json.loads(open(replay_path).read())["record"]["cm"])
         return v.finish({"states": 1, "transitions": 1, "traces_validated_against_impl": 1, "samples": []}, ["replay of one configuration"])
